@@ -926,6 +926,16 @@ def check(ctx):
             ctx.note('%s: formulas not compared because the binding obligations failed' % cls)
     check_c_arithmetic(ctx)
     check_numeric_literals(ctx)
+    # the binding of a propensity object (initialize) happens once, when the reaction is created: MassActionPropensity.initialize appends
+    # to its species vectors, so running it again on every model initialisation squares the rate law (C08 R8.3) - re-emitted here
+    from ..core import SubCtx as _Sub
+    from . import c08 as _c08
+    for m_ in ('lineage', 'lineage.pxd'):
+        prog.mod(m_)
+    sub = _Sub(ctx)
+    _c08.check_initialize_once(sub)
+    for rule, key, ok, where, what, detail in sub.got:
+        ctx.ob('R1.2-binding', 'C08/%s/%s' % (rule, key), ok, where, what, detail)
     check_dispatch(ctx)
     check_arguments_untouched(ctx)
     for cls in ('ModelCSimInterface', 'SafeModelCSimInterface'):
